@@ -1,3 +1,4 @@
+#![allow(unused_imports)]
 pub mod rt;
 pub mod engine;
 pub mod spec;
